@@ -18,8 +18,8 @@ PROPS = {
                    "sum_n reach(n), decrements the predecessor's pending count by the number of resolved nodes and enqueues it exactly "
                    "at zero; regret() combines them with the right strategies, signs and clamps. Accessors (negated utility, max of "
                    "regrets) are loop-free Kani proofs over all f64. Partial: see level_note.",
-        level_note="Assumes wf_game from from_root, idealised-real arithmetic, termination unproved. NOT proved: the seeding of "
-                   "optimal_deviations' resolution queue and the global order / work-list arguments (both passes are under per-step contracts only); bounded "
+        level_note="Assumes wf_game from from_root, idealised-real arithmetic, termination unproved. NOT proved: the "
+                   "global order / work-list arguments of optimal_deviations (both passes are under per-step contracts, the queue seed under a contract on its predicate); bounded "
                    "Kani harnesses on concrete 6-7 node trees were tried and did not finish (15 min - 1 h): not run.",
         verus=[
             U("c01_expected", ["C01.V.expected.value"]),
@@ -33,7 +33,7 @@ PROPS = {
         kani_functions=["src/lib.rs :: impl StrategiesInfo / fn player_utility, player_regret, regret", "src/lib.rs :: impl PlayerNum / fn ind, ind_mut"],
         trusted_base=[FLOAT_IDEAL, WF_GAME],
         not_decided=["global order argument of optimal_deviations (every infoset resolved after all later infosets of the same player): only the per-step contract is proved",
-                     "the seeding of the resolution queue of optimal_deviations (an enumerate/filter/map/collect chain) and the work-list arguments that compose the per-step contracts of its two passes",
+                     "the std adapter chain around the seeding predicate of optimal_deviations (enumerate/filter/map/collect, pinned textually) and the work-list arguments that compose the per-step contracts of its two passes",
                      "Strategies::get_info composition of split_by with collect (read)"],
     ),
     "C02": dict(
@@ -106,6 +106,7 @@ PROPS = {
         verus=[U("c07_external_fresh", ["C07.V.single_player_iter.workspace_fresh", "C07.V.solve_external_multi.workspace_fresh"]),
                U("c06_generic_multi_fresh", ["C06.V.solve_generic_multi.workspace_fresh"]),
                U("c05_into_avg_strat", ["C05.V.into_avg_strat.normalised (the multi-threaded extraction uses the same normalisation)"]),
+               U("c08_recurse_regret_dispatch", ["C08.V.recurse_regret.cache_hit (a frontier node evaluated by a worker is not traversed again)", "C08.V.recurse_regret.chance_sampled", "C08.V.recurse_regret.external_sampled"]),
                U("c09_external_single", ["C09.V.first_below"]), U("c09_external_multi", ["C09.V.first_below"]),
                U("c10_sampled_chance", ["C10.V.sampled_chance.cache_hit", "C10.V.sampled_chance.reset"]),
                U("c10_cached_infoset", ["C10.V.cached_infoset.cache_hit"]),
@@ -128,6 +129,7 @@ PROPS = {
                U("c08_advance_order", ["C08.V.advance.match_before_discount", "C08.V.advance.discount_regrets", "C08.V.advance.discount_average"]),
                U("c08_update_cum_strat", ["C08.V.update_cum_strat.vanilla", "C08.V.update_cum_strat.external"]),
                U("c08_external_recurse", ["C08.V.external.recurse"]),
+               U("c08_recurse_regret_dispatch", ["C08.V.recurse_regret.terminal_sign", "C08.V.recurse_regret.chance_sampled", "C08.V.recurse_regret.active_enumerates", "C08.V.recurse_regret.external_sampled", "C08.V.recurse_regret.cache_hit"]),
                U("c08_recurse_player", ["C08.V.recurse_player.update"]),
                U("c06_generic_multi_fresh", ["C06.V.solve_generic_multi.workspace_fresh (a stale cache skips updates)"]),
                U("c07_external_fresh", ["C07.V.single_player_iter.workspace_fresh"]),
@@ -172,10 +174,11 @@ PROPS = {
             U("c10_cached_infoset", ["C10.V.cached_infoset.cache_hit", "C10.V.cached_infoset.draws_from_current_strategy"]),
             U("c08_advance_order", ["C10.V.cached_infoset.advance_resets_draw"]),
             U("c10_full_chance", ["C10.V.full_chance.no_draw"]),
+            U("c08_recurse_regret_dispatch", ["C08.V.recurse_regret.active_enumerates (the pass's own player is enumerated)", "C08.V.recurse_regret.external_sampled (the other player's sampled action is followed)", "C08.V.recurse_regret.chance_sampled"]),
         ],
         kani_functions=["src/solve/multinomial.rs :: impl Distribution<usize> for Multinomial / fn sample"],
         trusted_base=[FLOAT_IDEAL, "rand::Rng::gen, rand_distr::WeightedAliasIndex (assumed contracts)"],
-        not_decided=["recurse_regret's choice of enumerated vs sampled player", "statistical correctness of the alias sampler"],
+        not_decided=["statistical correctness of the alias sampler", "external::next_nodes (the frontier walk's use of the same samplers)"],
     ),
     "C13": dict(
         level="proof",
